@@ -267,7 +267,7 @@ func (s *sched) abortToMain() {
 func panicString(r interface{}) string {
 	switch p := r.(type) {
 	case targetPanic:
-		return "panic: " + toString(p.v)
+		return "panic: " + panicValString(p.v)
 	case error:
 		return p.Error()
 	}
@@ -540,4 +540,30 @@ func (s *sched) unlock(m *value) {
 		s.ready(g)
 	}
 	s.yield()
+}
+
+// panicValString renders a panic value without addresses (stable keys).
+func panicValString(v value) string {
+	if itf, ok := v.(iface); ok {
+		if itf.t == nil {
+			return "nil"
+		}
+		switch x := itf.v.(type) {
+		case string:
+			return "(" + itf.t.String() + ") " + x
+		case sstr, decStr:
+			return "(" + itf.t.String() + ") <symbolic string>"
+		case *value:
+			if x != nil {
+				if st, ok := (*x).(structure); ok && len(st) > 0 {
+					if s, ok := st[0].(string); ok {
+						return "(" + itf.t.String() + ") " + s
+					}
+				}
+			}
+			return "(" + itf.t.String() + ")"
+		}
+		return "(" + itf.t.String() + ") " + toString(itf.v)
+	}
+	return toString(v)
 }
